@@ -115,24 +115,45 @@ def _clamp_state(g: CFG, lvalue: str) -> Dict[int, bool]:
 
 
 def r17_2(repo: Repo) -> RuleResult:
-    rr = RuleResult("R17.2", "weights are clamped at zero before being raised to a power", floor=3)
-    f = repo.func(IW, "InformationWeightTransformer.fit")
-    g = CFG(f.node)
-    pm = parents_map(f.node)
-    for call in repo.calls_in(f):
-        if repo.canonical(f.module, call.func) != "numpy.power" or not call.args:
-            continue
-        base = norm(call.args[0])
-        construct = "np.power(%s, ...)" % base
-        st = enclosing_stmt(call, pm)
-        nid = g.node_for(st)
-        state = _clamp_state(g, base)
-        if state.get(nid, False):
-            rr.ok(f, construct, "last write on every path is np.maximum(%s, 0.0)" % base, call.lineno)
-        else:
-            rr.bad(f, construct,
-                   "on some path `%s` reaches np.power without the np.maximum(., 0.0) clamp: a negative KL estimate "
-                   "raised to a fractional power is NaN" % base, call.lineno)
+    rr = RuleResult("R17.2", "weights are clamped at zero before being raised to a power", floor=1)
+    fit = repo.func(IW, "InformationWeightTransformer.fit")
+    # fit itself and the helpers of this module it calls (a de-duplicated rescaling helper must clamp as well)
+    scope = [fit]
+    for c in repo.calls_in(fit):
+        for t in repo.resolve_call(fit, c):
+            if isinstance(t, Func) and t.file == IW and not t.is_njit and t not in scope and t.name != "information_weight":
+                scope.append(t)
+    n_power = 0
+    for f in scope:
+        g = CFG(f.node)
+        pm = parents_map(f.node)
+        for call in repo.calls_in(f):
+            if repo.canonical(f.module, call.func) != "numpy.power" or not call.args:
+                continue
+            n_power += 1
+            b = call.args[0]
+            base = norm(b)
+            construct = "np.power(%s, ...)" % short(b, 40)
+            wrapped = isinstance(b, ast.Call) and norm(b.func) in ("np.maximum", "numpy.maximum", "np.fmax", "np.clip") and len(b.args) >= 2 \
+                and any(isinstance(x, ast.Constant) and x.value in (0, 0.0) for x in b.args[1:])
+            if wrapped:
+                rr.ok(f, construct, "the base is clamped in place", call.lineno)
+                continue
+            if not isinstance(b, (ast.Name, ast.Attribute)):
+                rr.bad(f, construct, "`%s` is raised to a power without the np.maximum(., 0.0) clamp: a negative KL estimate (approximate prior, "
+                       "supervised weights) raised to a fractional power is NaN and an odd power keeps it negative" % base, call.lineno)
+                continue
+            st = enclosing_stmt(call, pm)
+            nid = g.node_for(st)
+            state = _clamp_state(g, base)
+            if state.get(nid, False):
+                rr.ok(f, construct, "last write on every path is np.maximum(%s, 0.0)" % base, call.lineno)
+            else:
+                rr.bad(f, construct,
+                       "on some path `%s` reaches np.power without the np.maximum(., 0.0) clamp: a negative KL estimate "
+                       "raised to a fractional power is NaN" % base, call.lineno)
+    if n_power == 0:
+        raise AnalysisError("R17.2: no np.power on the fit path of InformationWeightTransformer (the weight_power step was not found)")
     return rr
 
 
